@@ -488,7 +488,7 @@ class _Filter:
 def s7(ctx, rep):
     P = ctx.P
     for cname in ("SynchronousHyperbandBracketManager", "DifferentialEvolutionHyperbandBracketManager"):
-        f = P.cls(cname).methods.get("_create_new_bracket")
+        f = P.lookup_method(P.cls(cname), "_create_new_bracket")        # own or inherited
         if f is None:
             raise AnchorError(f"{cname}._create_new_bracket vanished")
         offn = vars_assigned_from(f, lambda v: isinstance(v, ast.BinOp) and isinstance(v.op, ast.Mod))
@@ -500,6 +500,20 @@ def s7(ctx, rep):
             ds = [U(d) for d in local_defs(f, U(l)) if not isinstance(d, tuple)]
             ok = ds == ["self._next_bracket_id"]
         used = any(isinstance(x, ast.Subscript) and U(x.value) == "self._bracket_rungs" and U(x.slice) == offn for x in walk_shallow(f.node))
+        if not used:
+            # the bracket is built by a method of the manager that is handed the offset (a hook the subclasses override): in this
+            # class's version of it the rungs are looked up with that parameter
+            for x in walk_shallow(f.node):
+                if isinstance(x, ast.Call) and isinstance(x.func, ast.Attribute) and U(x.func.value) == "self" and any(U(a_) == offn for a_ in x.args):
+                    h = P.lookup_method(P.cls(cname), x.func.attr)
+                    if h is not None:
+                        hp_ = [p_ for p_ in h.params if p_ != "self"]
+                        pos = [i_ for i_, a_ in enumerate(x.args) if U(a_) == offn]
+                        if pos and pos[0] < len(hp_):
+                            pn = hp_[pos[0]]
+                            used = used or any(isinstance(y, ast.Subscript) and U(y.value) == "self._bracket_rungs" and U(y.slice) == pn
+                                               for y in walk_shallow(h.node)) or \
+                                any(isinstance(y, ast.Subscript) and "_bracket_rungs" in U(y.value) and U(y.slice) == pn for y in walk_shallow(h.node))
         rep.put(ok and used, "S7", "agreement", f"{cname}._create_new_bracket: rung system = bracket_rungs[bracket_id % num_bracket_offsets]", f, None, "",
                 "new brackets do not cycle through the configured rung systems")
 
